@@ -110,7 +110,16 @@ pub fn generate(prop: &str, seed: u64, tier: &str, out: &mut dyn std::io::Write)
             let c0 = r.bytes(c0len);
             let start = if c0len == 0 { 0 } else { r.below(c0len as u64 + 1) };
             let mut dest = RecDest::new(c0, start);
-            let o = dump_case(prop, &format!("t{}-{}-{}", seed, i, k), &t, &cfg, &mut dest, &format!("args={}", sc.args.join(",")));
+            let dso = &t.desc["dso"];
+            let dso_field = if dso["n"].as_u64().unwrap_or(0) > 0 {
+                let maps: Vec<String> = dso["maps"].as_array().unwrap().iter().map(|m| {
+                    format!("{}.{}.{}", m["l_addr"].as_u64().unwrap(), m["l_ld"].as_u64().unwrap(), crate::rng::hex(m["name"].as_str().unwrap().as_bytes()))
+                }).collect();
+                format!(" dso={}:{}:{}", dso["dyn"].as_u64().unwrap(), dso["r_debug"].as_u64().unwrap(), maps.join(";"))
+            } else {
+                String::new()
+            };
+            let o = dump_case(prop, &format!("t{}-{}-{}", seed, i, k), &t, &cfg, &mut dest, &format!("args={}{}", sc.args.join(","), dso_field));
             writeln!(out, "{}{}", o.line, if tracer.is_some() { " traced=1" } else { "" }).unwrap();
             if let Some(mut c) = tracer {
                 let _ = c.kill();
